@@ -1,19 +1,27 @@
 """C09 - connection lifecycle events pair up; at most five upstream connections per destination.
 
-Decided (path facts of ``mitmproxy/proxy/server.py``; every path of the function, exceptional exits included):
+Decided (path facts of ``mitmproxy/proxy/server.py``; every path of the function, exceptional exits included).  All rules work on
+*values*, not on the text of locals: helper methods of ``ConnectionHandler`` / helper functions of the module are inlined (so an
+extracted method is analysed in place), hook objects, the per-address semaphore, the connection, the tasks are followed through local
+aliases and helper parameters (``_helpers_B.SymFlowSpec`` on a depth-aware engine), and the "who may fire / write" clauses are closed
+over the call graph (a private helper called from nowhere else counts as its caller).
   R09.1 ``open_connection`` (``handle_connection`` inlined): no address -> none of the server hooks; otherwise exactly one
         ``ServerConnectHook``, followed by exactly one of ``ServerConnectedHook`` | ``ServerConnectErrorHook``; every
         ``ServerConnectedHook`` is followed by exactly one ``ServerDisconnectedHook`` on *all* exits (return, re-raised
-        cancellation); an ``OpenConnectionCompleted`` answer is sent on every path.  The six lifecycle hook classes are
-        instantiated nowhere else in the package.
+        cancellation); an ``OpenConnectionCompleted`` answer is sent on every path; every wait on an external awaitable between
+        server_connect and its outcome is inside a ``CancelledError`` handler.  The six lifecycle hook classes are instantiated
+        nowhere else in the package.
   R09.2 ``handle_client``: ``ClientConnectedHook`` is the first hook, ``ClientDisconnectedHook`` fires exactly once on every path
-        and only after the connection-handler task was awaited; afterwards every remaining transport handler is cancelled and
-        awaited; the killed-client branch closes the client writer.
-  R09.3 connect call, connected hook, ``handle_connection`` and disconnected hook all lie inside
-        ``async with self.max_conns[<conn>.address]``; ``max_conns`` is a ``defaultdict`` producing ``asyncio.Semaphore(n)``,
-        1 <= n <= 5, written only in ``__init__``.
-  R09.4 ``handle_connection`` removes ``self.transports[connection]`` exactly once on every exit (EOF, OSError, close error,
-        cancellation re-raised after the pop) and closes the writer before.
+        and only after the task created for ``handle_connection`` was awaited; afterwards the handler of everything left in
+        ``self.transports`` is cancelled and awaited (whatever the loop looks like: over values / items / a prepared list of the
+        handlers); the branch taken when ``client.error`` is set (tested directly, negated, via bool() or a local) closes the writer.
+  R09.3 connect call, connected hook, ``handle_connection`` and disconnected hook all happen while a slot of
+        ``self.max_conns[<conn>.address]`` is held (``async with`` or ``await <sem>.acquire()`` ... ``<sem>.release()`` balanced on
+        every exit), the key is the address that is connected to; ``max_conns`` is a ``defaultdict`` producing a fresh
+        ``asyncio.Semaphore(n)``, 1 <= n <= 5 (literal or module constant), written only while the handler is constructed.
+  R09.4 ``handle_connection`` removes ``self.transports[connection]`` (``pop`` / ``del``) exactly once on every exit (EOF, OSError,
+        close error, cancellation re-raised after the pop) and closes the writer before; every suspending await is inside a
+        ``CancelledError`` handler.
 Not decided: asyncio scheduling.  Refinement (printed in the evidence): exceptions/cancellation are modelled at every statement
 of a ``try`` body for the classes its handlers name (i.e. where the code itself guards); awaits outside such a try
 (``server_event``, ``handle_hook``) are assumed not to be interrupted.  ``raise AssertionError`` paths are treated like failed
@@ -29,12 +37,26 @@ from ..core import norm
 from ..model import attr_chain
 from ..model import call_name
 from ..model import calls_in
-from ..model import walk_in_order
+from ..model import enclosing_func
+from ..model import eval_order
+from ..model import last_attr
+from ..model import qual_of
 from ..paths import count
 from ..paths import index_of
-from ..paths import traces_of
+from ..paths import R
 from ..selftest import Mutant
-from ._helpers_B import FlowSpec
+from ._helpers_B import cancel_guarded
+from ._helpers_B import ceval
+from ._helpers_B import class_helper_resolver
+from ._helpers_B import is_sym
+from ._helpers_B import module_const
+from ._helpers_B import NotAnAtom
+from ._helpers_B import S
+from ._helpers_B import CONN_HANDLER_ATOMIC
+from ._helpers_B import handle_client_paths
+from ._helpers_B import only_reachable_from
+from ._helpers_B import SymFlowSpec
+from ._helpers_B import traces_of_v
 
 PROP = "C09"
 REG = {
@@ -51,7 +73,6 @@ SH = "mitmproxy/proxy/server_hooks.py"
 S_CONNECT, S_CONNECTED, S_ERR, S_DISC = "ServerConnectHook", "ServerConnectedHook", "ServerConnectErrorHook", "ServerDisconnectedHook"
 C_CONN, C_DISC = "ClientConnectedHook", "ClientDisconnectedHook"
 LIFECYCLE = (S_CONNECT, S_CONNECTED, S_ERR, S_DISC, C_CONN, C_DISC)
-CONNECT_CALLS = ("asyncio.open_connection", "mitmproxy_rs.udp.open_udp_connection")
 
 
 def is_hook(name=None):
@@ -63,30 +84,35 @@ def _terminal(res):
     return [(t, how, st) for t, how, st in res if how != "raise:AssertionError"]
 
 
+def _helpers(ctx, inline=()):
+    """resolver inlining every helper method of ConnectionHandler / helper function of proxy/server.py (``extract method`` is transparent);
+    the methods that are events of the rules' alphabet stay calls, except those named in ``inline``"""
+    return class_helper_resolver(ctx.model, F, "ConnectionHandler", [a for a in CONN_HANDLER_ATOMIC if a not in inline])
+
+
 def _r09_1(ctx):
     m = ctx.model
     oc = ctx.func(F, "ConnectionHandler.open_connection")
-    hconn = ctx.func(F, "ConnectionHandler.handle_connection")
+    hcl = ctx.func(F, "ConnectionHandler.handle_client")
+    ctx.func(F, "ConnectionHandler.handle_connection")
     for h in LIFECYCLE:
         m.cls(SH, h)
 
-    def resolver(call):
-        return hconn if call_name(call) == "self.handle_connection" else None
-
     def keep(ev):
-        if ev[0] == "hook":
+        if ev[0] in ("hook", "extwait"):
             return True
         if ev[0] == "call" and ev[1].endswith("OpenConnectionCompleted"):
             return True
         return False
 
-    res, eng = traces_of(oc, FlowSpec(keep=keep, resolver=resolver))
+    res, eng = traces_of_v(oc, SymFlowSpec(keep=keep, resolver=_helpers(ctx, inline=("handle_connection",)), hook_classes=LIFECYCLE, extwaits=True))
     ctx.require("handle_connection" in eng.inlined, "open_connection no longer awaits self.handle_connection(...)")
     term = _terminal(res)
     ctx.paths += len(term)
     where = (F, "ConnectionHandler.open_connection", oc)
     bad = {"no-hooks-without-address": 0, "one-outcome": 0, "disconnect": 0, "answer": 0}
     kinds = set()
+    waits: dict = {}  # external wait between server_connect and its outcome -> [node, text, guarded on every path]
     for t, how, st in term:
         hooks = [e[1] for e in t if e[0] == "hook"]
         unknown = [h for h in hooks if h not in LIFECYCLE]
@@ -101,6 +127,11 @@ def _r09_1(ctx):
             before = [e for e in t[:i] if e[0] == "hook"]
             if n_connect != 1 or n_ok + n_err != 1 or before:
                 bad["one-outcome"] += 1
+            j = index_of(t, lambda e: e[0] == "hook" and e[1] in (S_CONNECTED, S_ERR), i + 1)
+            for e in t[i + 1 : j if j >= 0 else len(t)]:
+                if e[0] == "extwait":
+                    w = waits.setdefault(id(e[3]), [e[3], e[1], True])
+                    w[2] = w[2] and e[2]
         # every connected is followed by exactly one disconnected
         if n_disc != n_ok or (n_ok and index_of(t, is_hook(S_DISC)) < index_of(t, is_hook(S_CONNECTED))):
             bad["disconnect"] += 1
@@ -121,42 +152,14 @@ def _r09_1(ctx):
     ctx.check(bad["answer"] == 0, "R09.1", where, "OpenConnectionCompleted exactly once",
               f"{bad['answer']} path(s) do not answer the OpenConnection command exactly once", desc="OpenConnectionCompleted exactly once per path")
     # cancellation between server_connect and its outcome: every wait on an external awaitable there (the per-address slot, the
-    # connect call) must sit inside a handler for CancelledError - the path enumeration above then shows that the handler reports an outcome
-    def _hook_line(name):
-        ls = [c.lineno for c in calls_in(oc) if call_name(c).split(".")[-1] == name]
-        ctx.require(ls, f"open_connection no longer constructs {name}")
-        return ls
-
-    lo, hi = min(_hook_line(S_CONNECT)), min(_hook_line(S_CONNECTED))
-
-    def _guarded(node):
-        p, child = getattr(node, "_parent", None), node
-        while p is not None and p is not oc:
-            if isinstance(p, ast.Try) and child in p.body:
-                for h in p.handlers:
-                    names = [""] if h.type is None else [e.attr if isinstance(e, ast.Attribute) else getattr(e, "id", "") for e in (h.type.elts if isinstance(h.type, ast.Tuple) else [h.type])]
-                    if any(x in ("", "CancelledError", "BaseException") for x in names):
-                        return True
-            child, p = p, getattr(p, "_parent", None)
-        return False
-
-    waits = []
-    for n in walk_in_order(oc):
-        if not (lo < getattr(n, "lineno", 0) < hi):
-            continue
-        if isinstance(n, ast.Await):
-            callee = call_name(n.value) if isinstance(n.value, ast.Call) else norm(n.value)
-            if callee.startswith("self."):
-                continue  # handle_hook / server_event: see the stated cancellation model
-            waits.append((n, callee))
-        elif isinstance(n, ast.AsyncWith):
-            waits.append((n, "async with " + ", ".join(norm(i.context_expr) for i in n.items)))
-    ctx.require(len(waits) >= 2, f"open_connection: expected the slot wait and the connect call between server_connect and server_connected, found {[w[1] for w in waits]}")
-    for n, what in waits:
-        ctx.check(_guarded(n), "R09.1", (F, "ConnectionHandler.open_connection", n), f"wait `{what}` between server_connect and its outcome is cancellation-guarded",
+    # connect call) must sit inside a handler for CancelledError (in its own function or at the call site of the helper it was moved to)
+    # - the path enumeration above then shows that the handler reports an outcome
+    ctx.require(len(waits) >= 2, f"open_connection: expected the slot wait and the connect call between server_connect and server_connected, found {[w[1] for w in waits.values()]}")
+    for node, what, guarded in sorted(waits.values(), key=lambda w: (w[0].lineno, w[0].col_offset)):
+        ctx.check(guarded, "R09.1", (F, qual_of(node), node), f"wait `{what}` between server_connect and its outcome is cancellation-guarded",
                   f"`{what}` can be cancelled (client disconnect) after server_connect fired, outside any handler for asyncio.CancelledError: "
                   "the attempt then has neither server_connected nor server_connect_error and the layer's OpenConnection is never answered", desc=f"{what}: inside a CancelledError handler")
-    # who may fire
+    # who may fire: the function itself or a helper that is called from nowhere else (call-graph closure)
     sites = {}
     for p in sorted((m.repo / "mitmproxy").rglob("*.py")):
         rel = p.relative_to(m.repo).as_posix()
@@ -168,76 +171,75 @@ def _r09_1(ctx):
         for c in calls_in(m.module(rel).tree):
             cls = call_name(c).split(".")[-1]
             if cls in LIFECYCLE:
-                from ..model import qual_of
-
                 sites.setdefault(cls, []).append((rel, qual_of(c), c))
     for cls in LIFECYCLE:
-        want = "ConnectionHandler.handle_client" if cls.startswith("Client") else "ConnectionHandler.open_connection"
+        root = hcl if cls.startswith("Client") else oc
+        want = root._qual
         got = sites.get(cls, [])
         ctx.require(got, f"{cls} is instantiated nowhere (anchor vanished)")
         for rel, q, c in got:
-            ctx.check(rel == F and q == want, "R09.1", (rel, q, c), f"{cls}(...) instantiated outside {want}",
+            fn = enclosing_func(c)
+            ok = fn is not None and (fn is root or (rel == F and only_reachable_from(m, rel, fn, [root])))
+            ctx.check(ok, "R09.1", (rel, q, c), f"{cls}(...) instantiated outside {want}",
                       "a lifecycle hook is fired from a second place: the once-per-connection pairing is no longer decided by open_connection/handle_client",
-                      desc=f"{cls} only in {want}")
+                      desc=f"{cls} only in {want}" + ("" if fn is root else f" (helper {q}, called from nowhere else)"))
     ctx.expect_instances("R09.1", 4 + 6 + 2)  # 4 path facts + at least one instantiation site per lifecycle hook class (7 today)
 
 
 def _r09_2(ctx):
-    hc = ctx.func(F, "ConnectionHandler.handle_client")
-
-    def keep(ev):
-        if ev[0] == "hook":
-            return True
-        if ev[0] == "await" and ev[1] == "asyncio.wait":
-            return True
-        if ev[0] == "call" and (ev[1] == "self.handle_connection" or ev[1].endswith(".cancel") or ev[1].endswith(".close")):
-            return True
-        if ev[0] == "cond" and ev[1] in ("self.client.error", "self.transports") or ev[0] == "cond" and ev[1].endswith(".handler"):
-            return True
-        return ev[0] == "loop"
-
-    res, eng = traces_of(hc, FlowSpec(keep=keep, loops=True))
-    term = _terminal(res)
+    # value-based projection (see _helpers_B.HandleClientSpec): helper methods are inlined, the client.error test is recognised through
+    # negation / bool() / a local holding it, the tasks that are cancelled / awaited are identified by what they *are* (the task created for
+    # handle_connection, the handlers of what is left in self.transports) and not by the names of locals or the shape of the loop
+    hc, term, eng = handle_client_paths(ctx, LIFECYCLE)
     ctx.paths += len(term)
     where = (F, "ConnectionHandler.handle_client", hc)
     bad = {"first": 0, "once": 0, "after-handler": 0, "close": 0, "cancel": 0}
-    served = cancelled = 0
+    served = cancelled = refused = uncancelled_wait = 0
     loops = set()
+    is_serve = lambda e: e[0] == "call" and e[1].split(".")[-1] == "handle_connection"  # noqa: E731
+    is_close = lambda e: e[0] == "call" and e[1].split(".")[-1] in ("close", "abort")  # noqa: E731
     for t, how, st in term:
         hooks = [e[1] for e in t if e[0] == "hook"]
         ctx.require(all(h in (C_CONN, C_DISC) for h in hooks), f"handle_client fires hooks the rule does not know: {hooks}")
         if not hooks or hooks[0] != C_CONN or hooks.count(C_CONN) != 1:
             bad["first"] += 1
+        refused += any(e[0] == "cerr" and e[1] for e in t)
         if hooks.count(C_DISC) != 1 or hooks[-1:] != [C_DISC]:
             bad["once"] += 1
             continue
         d = index_of(t, is_hook(C_DISC))
-        s = index_of(t, lambda e: e[0] == "call" and e[1] == "self.handle_connection")
+        s = index_of(t, is_serve)
         if s >= 0:
             served += 1
-            w = index_of(t, lambda e: e == ("await", "asyncio.wait"), s)
+            w = index_of(t, lambda e: e == ("wait", "client-task"), s)
             if not (0 <= w < d) or s > d:
                 bad["after-handler"] += 1
-        if any(e[0] == "cond" and e[1] == "self.client.error" and e[2] for e in t[:d]):
-            if s >= 0 or not any(e[0] == "call" and e[1].endswith(".close") for e in t[:d]):
+        if any(e[0] == "cerr" and e[1] for e in t[:d]):
+            if s >= 0 or not any(is_close(e) for e in t[:d]):
                 bad["close"] += 1
         # after the hook: cancel + await every remaining handler
         tail = t[d + 1 :]
+        if ("wait", "remaining") in tail and not any(e[0] == "loop" for e in tail):
+            uncancelled_wait += 1  # the remaining handlers are awaited but there is no loop over them that could cancel them
         for k, e in enumerate(tail):
             if e[0] == "loop" and e[1]:
                 loops.add(e[2])
-                rest = tail[k + 1 :]
-                hcond = next((x for x in rest if x[0] in ("cond", "loop")), None)
-                if hcond is not None and hcond[0] == "cond" and hcond[1].endswith(".handler") and hcond[2]:
+                nxt = index_of(tail, lambda x: x[0] == "loop", k + 1)
+                seg = tail[k + 1 : nxt if nxt >= 0 else len(tail)]
+                if ("hcond", False) in seg:
+                    continue  # this transport has no handler task: nothing to cancel
+                c = index_of(seg, lambda x: x == ("cancel", "remaining"))
+                w = index_of(tail, lambda x: x == ("wait", "remaining"), k + 1 + max(c, 0))
+                if c < 0 or w < 0:
+                    bad["cancel"] += 1
+                else:
                     cancelled += 1
-                    c = index_of(rest, lambda x: x[0] == "call" and x[1].endswith(".handler.cancel"))
-                    w = index_of(rest, lambda x: x == ("await", "asyncio.wait"), max(c, 0))
-                    if c < 0 or w < 0:
-                        bad["cancel"] += 1
     ctx.require(served > 0, "handle_client: no path creates the client connection handler (anchor changed)")
-    ctx.require(cancelled > 0 and len(loops) == 1, "handle_client: the loop cancelling the remaining transports was not found after ClientDisconnectedHook")
-    loop = next(iter(loops))
-    ctx.require(norm(loop.iter) in ("self.transports.values()", "list(self.transports.values())"), f"handle_client: cancel loop iterates {norm(loop.iter)} (not modelled)")
+    ctx.require(refused > 0, "handle_client: no path tests client.error (anchor changed shape)")
+    if not loops and uncancelled_wait:
+        bad["cancel"] += uncancelled_wait
+    else:
+        ctx.require((cancelled > 0 or bad["cancel"]) and len(loops) == 1, "handle_client: the loop cancelling the remaining transports was not found after ClientDisconnectedHook")
     ctx.check(bad["first"] == 0, "R09.2", where, "ClientConnectedHook first, once", f"{bad['first']} path(s) do not start with exactly one client_connected", desc="client_connected first and once")
     ctx.check(bad["once"] == 0, "R09.2", where, "ClientDisconnectedHook exactly once, last hook", f"{bad['once']} path(s) do not end with exactly one client_disconnected", desc="client_disconnected exactly once on every path")
     ctx.check(bad["after-handler"] == 0, "R09.2", where, "await asyncio.wait([handler]) before ClientDisconnectedHook",
@@ -248,87 +250,189 @@ def _r09_2(ctx):
     ctx.expect_instances("R09.2", 5)
 
 
+CONNECT_FUNCS = ("open_connection", "open_udp_connection")  # asyncio.open_connection / mitmproxy_rs.udp.open_udp_connection, however imported
+SEM_QUERIES = ("locked", "_value")  # pure queries of asyncio.Semaphore
+
+
+def _reftext(v, expr):
+    return v[1] if isinstance(v, tuple) and len(v) == 2 and v[0] == "r" else norm(expr)
+
+
+class SemSpec(SymFlowSpec):
+    """open_connection projected onto the per-address limit, by value: ``X.max_conns[key]`` is S('sem', key) wherever it flows (local alias,
+    helper parameter); events ('acquire', key) when ``await <sem>.acquire()`` completes or ``async with <sem>`` is entered,
+    ('release', key) for ``<sem>.release()`` / leaving the ``async with``; ('connect', callee, (address texts), node) for the connect calls;
+    ('serve', connection text, node) for handle_connection; the hooks.  Any other use of the semaphore value than acquire / release / a pure
+    query / isinstance / formatting / a plain local alias is not modelled (AnalysisError)."""
+
+    def __init__(self, **kw):
+        super().__init__(keep=lambda ev: ev[0] in ("acquire", "release", "connect", "serve", "except") or (ev[0] == "hook" and ev[1] in (S_CONNECTED, S_DISC)), **kw)
+        self._with: dict = {}
+
+    def sym_value(self, expr, st, depth):
+        if isinstance(expr, ast.Subscript) and attr_chain(expr.value).endswith(".max_conns"):
+            return S("sem", _reftext(self.value(expr.slice, st, depth), expr.slice))
+        if isinstance(expr, ast.Subscript) and isinstance(expr.slice, ast.Constant) and isinstance(expr.slice.value, int):
+            b = self.value(expr.value, st, depth)
+            if isinstance(b, tuple) and len(b) == 2 and b[0] == "r":
+                return R(f"{b[1]}[{expr.slice.value}]")  # host = conn.address[0]
+        return None
+
+    def bind(self, target, value_expr, st, depth, value=None):
+        # host, port = conn.address: the elements stay references into the address
+        if isinstance(target, (ast.Tuple, ast.List)) and value_expr is not None and all(isinstance(e, ast.Name) for e in target.elts):
+            v = value if value is not None else self.value(value_expr, st, depth)
+            if isinstance(v, tuple) and len(v) == 2 and v[0] == "r":
+                for i, e in enumerate(target.elts):
+                    st = st.set(f"{depth}:{e.id}", R(f"{v[1]}[{i}]"))
+                return st
+        return super().bind(target, value_expr, st, depth, value=value)
+
+    def _address_of(self, call, st):
+        """texts of the address(es) a connect call is made to: ``f(*addr, ..)`` or ``f(addr[0], addr[1], ..)``"""
+        star = tuple(_reftext(self.sym(a.value, st), a.value) for a in call.args if isinstance(a, ast.Starred))
+        if star or len(call.args) < 2:
+            return star
+        h, p = (_reftext(self.sym(a, st), a) for a in call.args[:2])
+        if h.endswith("[0]") and p.endswith("[1]") and h[:-3] == p[:-3]:
+            return (h[:-3],)
+        return ()
+
+    def _check_use(self, n):
+        p = getattr(n, "_parent", None)
+        ok = (
+            (isinstance(p, ast.Attribute) and p.attr in ("acquire", "release") + SEM_QUERIES)
+            or isinstance(p, (ast.withitem, ast.FormattedValue, ast.Compare, ast.Assert, ast.Expr))
+            or (isinstance(p, (ast.Assign, ast.AnnAssign, ast.NamedExpr)) and p.value is n and all(isinstance(t, ast.Name) for t in (p.targets if isinstance(p, ast.Assign) else [p.target])))
+            or (isinstance(p, ast.Call) and isinstance(p.func, ast.Name) and p.func.id in ("isinstance", "type", "id", "repr", "str") and p.args and p.args[0] is n)
+            or (isinstance(p, ast.Call) and n in p.args and (call_name(p) == "self.log" or call_name(p).split(".")[0] in ("logger", "logging", "log")))
+        )
+        if not ok:
+            raise AnalysisError(f"open_connection: the per-address semaphore `{norm(n)}` is used other than by acquire / release / a pure query (not modelled): {norm(p)[:80]}")
+
+    def sym_events(self, node, st):
+        out = []
+        for n in eval_order(node):
+            if isinstance(n, (ast.Name, ast.Subscript)) and isinstance(getattr(n, "ctx", None), ast.Load) and is_sym(self.sym(n, st), "sem"):
+                self._check_use(n)
+            if isinstance(n, ast.Await) and isinstance(n.value, ast.Call) and isinstance(n.value.func, ast.Attribute) and n.value.func.attr == "acquire":
+                v = self.sym(n.value.func.value, st)
+                if is_sym(v, "sem"):
+                    out.append(("acquire", v[2]))
+            elif isinstance(n, ast.Call) and isinstance(n.func, ast.Attribute) and n.func.attr == "release":
+                v = self.sym(n.func.value, st)
+                if is_sym(v, "sem"):
+                    out.append(("release", v[2]))
+            elif isinstance(n, ast.Call) and last_attr(n.func) in CONNECT_FUNCS and not call_name(n).startswith(("self.", "cls.")):
+                out.append(("connect", call_name(n), self._address_of(n, st), n))
+            elif isinstance(n, ast.Call) and call_name(n) == "self.handle_connection":
+                out.append(("serve", _reftext(self.sym(n.args[0], st), n.args[0]) if len(n.args) == 1 else "?", n))
+        return out
+
+    def with_enter(self, node, s):
+        out = []
+        for i in node.items:
+            v = self.sym(i.context_expr, s)
+            if is_sym(v, "sem"):
+                ctx_ok = isinstance(node, ast.AsyncWith)
+                if not ctx_ok:
+                    raise AnalysisError("open_connection: plain `with` on an asyncio.Semaphore")
+                self._with.setdefault(id(node), []).append(v[2])
+                out.append(("acquire", v[2]))
+        return tuple(out)
+
+    def with_exit(self, node):
+        return tuple(("release", k) for k in reversed(self._with.get(id(node), [])))
+
+
+def _semaphore_bound(ctx, mod, factory):
+    """n of the ``asyncio.Semaphore(n)`` every call of the defaultdict factory creates; shapes: ``lambda: Semaphore(n)``,
+    ``functools.partial(Semaphore, n)``; n a literal or a module constant"""
+    def const(e):
+        def atom(n, env):
+            if isinstance(n, ast.Name) and mod.assigns(n.id):
+                return module_const(ctx.model, F, n.id)
+            raise NotAnAtom
+        return ceval(e, {}, atom, "semaphore size")
+
+    sem = None
+    if isinstance(factory, ast.Lambda) and not (factory.args.args or factory.args.vararg or factory.args.kwarg or factory.args.kwonlyargs) and isinstance(factory.body, ast.Call):
+        sem, args, kws = factory.body.func, factory.body.args, factory.body.keywords
+    elif isinstance(factory, ast.Call) and last_attr(factory.func) == "partial" and factory.args:
+        sem, args, kws = factory.args[0], factory.args[1:], factory.keywords
+    if sem is None or last_attr(sem) not in ("Semaphore", "BoundedSemaphore"):
+        raise AnalysisError(f"max_conns: the defaultdict factory {norm(factory)} is not modelled (expected a lambda / partial creating a fresh asyncio.Semaphore(n))")
+    vals = list(args) + [k.value for k in kws if k.arg == "value"]
+    if len(vals) != 1 or any(k.arg != "value" for k in kws):
+        raise AnalysisError(f"max_conns: unmodelled Semaphore arguments in {norm(factory)}")
+    n = const(vals[0])
+    if not isinstance(n, int) or isinstance(n, bool):
+        raise AnalysisError(f"max_conns: Semaphore size {norm(vals[0])} is not an integer constant")
+    return n
+
+
 def _r09_3(ctx):
     oc = ctx.func(F, "ConnectionHandler.open_connection")
-    hconn_name = "self.handle_connection"
-    # the per-address limit is held either by `async with self.max_conns[key]:` or by the explicit idiom
-    #   lim = self.max_conns[key]; await lim.acquire(); try: ... finally: lim.release()
-    withs = [n for n in walk_in_order(oc) if isinstance(n, ast.AsyncWith) and any(norm(i.context_expr).startswith("self.max_conns[") for i in n.items)]
-    aliases = [n for n in walk_in_order(oc) if isinstance(n, ast.Assign) and len(n.targets) == 1 and isinstance(n.targets[0], ast.Name) and norm(n.value).startswith("self.max_conns[")]
-    ctx.require(len(withs) + len(aliases) == 1, f"open_connection: {len(withs)} `async with self.max_conns[...]` blocks and {len(aliases)} `x = self.max_conns[...]` aliases (exactly one holder modelled)")
-    if withs:
-        sem = next(i.context_expr for i in withs[0].items if norm(i.context_expr).startswith("self.max_conns["))
-        anchor_node = withs[0]
-        ACQ = REL_ = None
-    else:
-        sem = aliases[0].value
-        anchor_node = aliases[0]
-        alias = aliases[0].targets[0].id
-        ACQ, REL_ = f"{alias}.acquire", f"{alias}.release"
-        others = [n for n in ast.walk(oc) if isinstance(n, ast.Name) and n.id == alias and isinstance(n.ctx, ast.Load) and not (isinstance(getattr(n, "_parent", None), ast.Attribute) and n._parent.attr in ("acquire", "release"))]
-        ctx.require(not others, f"open_connection: the semaphore alias `{alias}` is used other than by .acquire()/.release() (not modelled)")
-    key = sem.slice
-    key_chain = attr_chain(key)
-    ctx.require(key_chain.count(".") >= 1, f"max_conns is keyed by {norm(key)} (an attribute of the connection is modelled)")
-    conn_prefix = key_chain.rsplit(".", 1)[0]
-    SEM = norm(sem)
-
-    def keep(ev):
-        if ev[0] in ("enter", "exit"):
-            return ev[1] == SEM
-        if ACQ and ev[0] in ("await", "call") and ev[1] in (ACQ, REL_):
-            return True
-        if ev[0] == "hook":
-            return ev[1] in (S_CONNECTED, S_DISC)
-        return ev[0] in ("await", "call") and (ev[1] in CONNECT_CALLS or ev[1] == hconn_name)
-
-    res, eng = traces_of(oc, FlowSpec(keep=keep))
+    res, eng = traces_of_v(oc, SemSpec(resolver=_helpers(ctx), hook_classes=LIFECYCLE))
     term = _terminal(res)
     ctx.paths += len(term)
     outside = set()
-    seen = set()
+    seen: dict = {}
+    keys = set()
     unbalanced = 0
+    connects: dict = {}
+    serves: dict = {}
     for t, how, st in term:
         depth = 0
         for e in t:
-            if e[0] == "except" or (ACQ and e == ("call", ACQ)):
-                continue  # (an interrupted acquire raises before its await event is recorded: no slot is held in its handler)
-            if e[0] == "enter" or (ACQ and e == ("await", ACQ)):
+            if e[0] == "except":
+                continue
+            if e[0] == "acquire":
+                keys.add(e[1])
                 depth += 1
-            elif e[0] == "exit" or (ACQ and e == ("call", REL_)):
+            elif e[0] == "release":
+                keys.add(e[1])
                 depth -= 1
             else:
-                label = e[1]
-                seen.add(label)
+                if e[0] == "connect":
+                    label = e[1]
+                    connects[id(e[3])] = e
+                elif e[0] == "serve":
+                    label = "self.handle_connection"
+                    serves[id(e[2])] = e
+                else:
+                    label = e[1]
+                seen[label] = e[0]
                 if depth <= 0:
                     outside.add(label)
         if depth != 0:
             unbalanced += 1
-    ctx.require({S_CONNECTED, S_DISC, hconn_name} <= seen and seen & set(CONNECT_CALLS), f"open_connection: connect/serve events not found ({sorted(seen)})")
-    where = (F, "ConnectionHandler.open_connection", anchor_node)
-    if ACQ:
-        ctx.check(unbalanced == 0, "R09.3", where, f"{ACQ}() paired with {REL_}() on every exit",
-                  f"{unbalanced} exit path(s) (exceptional ones included) keep or over-release a slot of max_conns[address]: the limit of five drifts", desc=f"{ACQ} / {REL_} balanced on all {len(term)} exits")
+    ctx.require(len(keys) == 1, f"open_connection: expected exactly one per-address semaphore self.max_conns[<address>] to be acquired, found keys {sorted(keys)}")
+    key_chain = next(iter(keys))
+    ctx.require(key_chain.count(".") >= 1, f"max_conns is keyed by {key_chain} (an attribute of the connection is modelled)")
+    conn_prefix = key_chain.rsplit(".", 1)[0]
+    ctx.require({S_CONNECTED, S_DISC, "self.handle_connection"} <= set(seen) and "connect" in seen.values(), f"open_connection: connect/serve events not found ({sorted(seen)})")
+    where = (F, "ConnectionHandler.open_connection", oc)
+    ctx.check(unbalanced == 0, "R09.3", where, "max_conns[address] acquired and released in pairs on every exit",
+              f"{unbalanced} exit path(s) (exceptional ones included) keep or over-release a slot of max_conns[address]: the limit of five drifts", desc=f"acquire / release of max_conns[{key_chain}] balanced on all {len(term)} exits")
     for label in sorted(seen):
         ctx.check(label not in outside, "R09.3", where, f"{label} outside the per-address semaphore",
                   "part of the connect-and-serve region runs without holding max_conns[address]: more than five connections to one address can be open",
-                  desc=f"{label} inside async with {SEM}")
+                  desc=f"{label} while holding max_conns[{key_chain}]")
     # the key is the address that is being connected to
-    connects = [c for c in calls_in(oc) if call_name(c) in CONNECT_CALLS]
-    for c in connects:
-        star = [a.value for a in c.args if isinstance(a, ast.Starred)]
-        ctx.check(len(star) == 1 and attr_chain(star[0]) == key_chain, "R09.3", (F, "ConnectionHandler.open_connection", c), f"{call_name(c)}(*{key_chain})",
-                  f"the connection is made to {norm(star[0]) if star else '?'} but the semaphore is keyed by {key_chain}", desc=f"{call_name(c)} connects to the semaphore key")
-    serve = [c for c in calls_in(oc, hconn_name)]
-    for c in serve:
-        ctx.require(len(c.args) == 1 and attr_chain(c.args[0]) == conn_prefix, f"handle_connection serves {norm(c)} but the semaphore is keyed by {key_chain}")
-    # the semaphore table
+    for _, name, star, c in sorted(connects.values(), key=lambda e: e[3].lineno):
+        ctx.require(len(star) == 1, f"open_connection: the address {norm(c)[:80]} connects to is not modelled (expected `*<conn>.address` or its two elements)")
+        ctx.check(star[0] == key_chain, "R09.3", (F, qual_of(c), c), f"{name}(*{key_chain})",
+                  f"the connection is made to {star[0] if star else '?'} but the semaphore is keyed by {key_chain}", desc=f"{name} connects to the semaphore key")
+    for _, arg, c in serves.values():
+        ctx.require(arg == conn_prefix, f"handle_connection serves {arg} but the semaphore is keyed by {key_chain}")
+    # the semaphore table: written only while the handler is constructed, a defaultdict of fresh Semaphore(n), 1 <= n <= 5
     init = ctx.func(F, "ConnectionHandler.__init__")
     mod = ctx.model.module(F)
     writes = []
     for n in ast.walk(mod.tree):
-        if isinstance(n, (ast.Assign, ast.AugAssign, ast.AnnAssign)):
-            targets = n.targets if isinstance(n, ast.Assign) else [n.target]
+        if isinstance(n, (ast.Assign, ast.AugAssign, ast.AnnAssign, ast.Delete)):
+            targets = n.targets if isinstance(n, (ast.Assign, ast.Delete)) else [n.target]
             if isinstance(n, ast.AnnAssign) and n.value is None:
                 continue
             for t in targets:
@@ -336,33 +440,86 @@ def _r09_3(ctx):
                 if attr_chain(base).endswith(".max_conns"):
                     writes.append(n)
     ctx.require(len(writes) >= 1, "no assignment to max_conns found")
-    n_ok = None
     for w in writes:
         v = getattr(w, "value", None)
-        from ..model import enclosing_func
-
-        ok = (
-            enclosing_func(w) is init
-            and isinstance(w, ast.Assign)
-            and isinstance(v, ast.Call)
-            and call_name(v).split(".")[-1] == "defaultdict"
-            and len(v.args) == 1
-            and isinstance(v.args[0], ast.Lambda)
-            and not v.args[0].args.args
-            and isinstance(v.args[0].body, ast.Call)
-            and call_name(v.args[0].body) in ("asyncio.Semaphore", "asyncio.BoundedSemaphore")
-            and len(v.args[0].body.args) == 1
-            and isinstance(v.args[0].body.args[0], ast.Constant)
-            and isinstance(v.args[0].body.args[0].value, int)
-        )
-        if ok:
-            n_ok = v.args[0].body.args[0].value
-        ctx.check(ok and 1 <= n_ok <= 5, "R09.3", (F, "ConnectionHandler.__init__", w), norm(w),
+        fn = enclosing_func(w)
+        placed = fn is not None and (fn is init or only_reachable_from(ctx.model, F, fn, [init]))
+        whole = isinstance(w, (ast.Assign, ast.AnnAssign)) and all(not isinstance(t, ast.Subscript) for t in (w.targets if isinstance(w, ast.Assign) else [w.target]))
+        n_ok = None
+        if placed and whole:
+            ctx.require(isinstance(v, ast.Call) and last_attr(v.func) == "defaultdict" and len(v.args) == 1 and not v.keywords, f"max_conns is no longer a defaultdict(factory): {norm(w)} (not modelled)")
+            n_ok = _semaphore_bound(ctx, mod, v.args[0])
+        ctx.check(placed and whole and 1 <= n_ok <= 5, "R09.3", (F, qual_of(w), w), norm(w),
                   "max_conns is not a defaultdict of fresh asyncio.Semaphore(n) with 1 <= n <= 5 created in __init__ (the bound of the property is five)",
                   desc=f"max_conns = defaultdict(lambda: Semaphore({n_ok}))")
-    rel = [c for c in calls_in(mod.tree) if ".max_conns" in call_name(c) and call_name(c).split(".")[-1] in ("release", "acquire", "pop", "clear", "__delitem__")]
+    # entries are never dropped / replaced, and slots are taken and given back only by open_connection (and its helpers)
+    rel = []
+    for c in calls_in(mod.tree):
+        f = c.func
+        if not isinstance(f, ast.Attribute):
+            continue
+        if attr_chain(f.value).endswith(".max_conns") and f.attr in ("pop", "popitem", "clear", "__delitem__", "__setitem__", "update", "setdefault"):
+            rel.append(c)
+        elif isinstance(f.value, ast.Subscript) and attr_chain(f.value.value).endswith(".max_conns") and f.attr in ("release", "acquire"):
+            fn = enclosing_func(c)
+            if not (fn is oc or (fn is not None and only_reachable_from(ctx.model, F, fn, [oc]))):
+                rel.append(c)
     ctx.check(not rel, "R09.3", (F, "<module>", rel[0] if rel else 0), "manual acquire/release of max_conns", "the per-address semaphore is manipulated outside the async with", desc="no manual acquire/release/pop of max_conns")
     ctx.expect_instances("R09.3", 5 + 2 + 1 + 1)
+
+
+class ConnSpec(SymFlowSpec):
+    """handle_connection projected onto: ('pop', key text) for ``self.transports.pop(key[, default])`` / ``del self.transports[key]``,
+    ('call', '<x>.close'), ('except', Cls), ('extwait', callee, guarded, node) for every await that can really suspend: an external
+    awaitable, or a method of the handler that (transitively) awaits one."""
+
+    def __init__(self, model, **kw):
+        super().__init__(keep=lambda ev: ev[0] in ("pop", "except") or (ev[0] == "call" and ev[1].endswith(".close")), extwaits=True,
+                         guard_also=lambda t: any(self._is_pop(n) for st in t.finalbody for n in ast.walk(st)), **kw)
+        self.model = model
+
+    @staticmethod
+    def _is_pop(n):
+        if isinstance(n, ast.Call) and isinstance(n.func, ast.Attribute) and n.func.attr == "pop" and attr_chain(n.func.value) == "self.transports" and n.args:
+            return n.args[0]
+        if isinstance(n, ast.Delete):
+            for t in n.targets:
+                if isinstance(t, ast.Subscript) and attr_chain(t.value) == "self.transports":
+                    return t.slice
+        return None
+
+    def external_awaits(self, fn, seen):
+        """awaits in fn (transitively through awaited methods of the same class) whose awaitable is not repository code"""
+        out = []
+        for n in ast.walk(fn):
+            if not isinstance(n, ast.Await):
+                continue
+            v = n.value
+            callee = call_name(v) if isinstance(v, ast.Call) else ""
+            if callee.startswith("self.") and callee.count(".") == 1 and self.model.method(F, "ConnectionHandler", callee[5:]) is not None:
+                name = callee[5:]
+                if name not in seen:
+                    seen.add(name)
+                    out.extend(self.external_awaits(self.model.method(F, "ConnectionHandler", name)[1], seen))
+            else:
+                out.append(n)
+        return out
+
+    def sym_events(self, node, st):
+        out = []
+        for n in list(eval_order(node)):
+            k = self._is_pop(n)
+            if k is not None:
+                out.append(("pop", _reftext(self.sym(k, st), k)))
+            if isinstance(n, ast.Await) and isinstance(n.value, ast.Call):
+                callee = call_name(n.value)
+                if callee.startswith("self.") and callee.count(".") == 1:
+                    r = self.model.method(F, "ConnectionHandler", callee[5:])
+                    if r is not None:
+                        ext = self.external_awaits(r[1], {callee[5:]})
+                        if ext:  # (else: suspends at most on an uncontended lock - the stated cancellation model of C09)
+                            out.append(("extwait", callee, cancel_guarded(n, self.call_stack, also=self.guard_also), n))
+        return out
 
 
 def _r09_4(ctx):
@@ -370,29 +527,27 @@ def _r09_4(ctx):
     params = [a.arg for a in hconn.args.args]
     ctx.require(len(params) == 2, "handle_connection signature changed")
     conn = params[1]
-    POP = "self.transports.pop"
-
-    def keep(ev):
-        return (ev[0] == "call" and (ev[1] == POP or ev[1].endswith(".close"))) or ev[0] == "except"
-
-    res, eng = traces_of(hconn, FlowSpec(keep=keep, unroll=1))
+    spec = ConnSpec(ctx.model, resolver=_helpers(ctx), unroll=1)
+    res, eng = traces_of_v(hconn, spec, bindings={conn: R(conn)})
     term = _terminal(res)
     ctx.paths += len(term)
-    pops = calls_in(hconn, POP)
-    ctx.require(pops, "handle_connection no longer calls self.transports.pop (anchor changed)")
-    for c in pops:
-        ctx.require(c.args and isinstance(c.args[0], ast.Name) and c.args[0].id == conn, f"handle_connection pops {norm(c)} - not its own connection")
-    bad_pop = bad_close = 0
+    bad_pop = bad_close = n_pops = 0
     hows = set()
     for t, how, st in term:
         hows.add(how)
-        if count(t, lambda e: e == ("call", POP)) != 1:
+        pops = [e for e in t if e[0] == "pop"]
+        n_pops += len(pops)
+        for e in pops:
+            ctx.require(e[1] == conn, f"handle_connection pops self.transports[{e[1]}] - not its own connection")
+        if len(pops) != 1:
             bad_pop += 1
-        i = index_of(t, lambda e: e == ("call", POP))
+        i = index_of(t, lambda e: e[0] == "pop")
         # the writer is closed (or closing it failed with OSError) before the entry is forgotten
         closed = any(e[0] == "call" and e[1].endswith(".close") for e in t[: max(i, 0)]) or any(e == ("except", "OSError") for e in t[: max(i, 0)])
         if not closed:
             bad_close += 1
+    waits = spec.wait_log  # (not read off the terminal paths: the path through a completed drain is cut off by the loop bound)
+    ctx.require(n_pops > 0, "handle_connection no longer removes its entry from self.transports (anchor changed)")
     ctx.require("return" in hows and any(h.startswith("raise:") for h in hows), f"handle_connection: expected returning and re-raising exits, got {sorted(hows)}")
     where = (F, "ConnectionHandler.handle_connection", hconn)
     ctx.check(bad_pop == 0, "R09.4", where, "self.transports.pop(connection) exactly once on every exit",
@@ -401,55 +556,12 @@ def _r09_4(ctx):
     # cancellation can be delivered at every await that really suspends.  The path enumeration above models it where the code
     # has a handler; an await that suspends on an external awaitable *outside* any CancelledError handler lets the exception
     # leave the function before the close / pop at its end.
-    m = ctx.model
-
-    def external_awaits(fn, seen):
-        """awaits in fn (transitively through awaited methods of the same class) whose awaitable is not repository code"""
-        out = []
-        for n in ast.walk(fn):
-            if not isinstance(n, ast.Await):
-                continue
-            v = n.value
-            callee = call_name(v) if isinstance(v, ast.Call) else ""
-            if callee.startswith("self.") and callee.count(".") == 1 and m.has(F, "ConnectionHandler." + callee[5:]):
-                name = callee[5:]
-                if name not in seen:
-                    seen.add(name)
-                    out.extend(external_awaits(m.func(F, "ConnectionHandler." + name), seen))
-            else:
-                out.append(n)
-        return out
-
-    def guarded(node):
-        p = getattr(node, "_parent", None)
-        child = node
-        while p is not None and p is not hconn:
-            if isinstance(p, ast.Try) and child in p.body:
-                names = [last for h in p.handlers for last in ([""] if h.type is None else [e.attr if isinstance(e, ast.Attribute) else getattr(e, "id", "") for e in (h.type.elts if isinstance(h.type, ast.Tuple) else [h.type])])]
-                if any(x in ("", "CancelledError", "BaseException") for x in names):
-                    return True
-                if any(isinstance(c, ast.Call) and call_name(c) == POP for st in p.finalbody for c in ast.walk(st)):
-                    return True
-            child, p = p, getattr(p, "_parent", None)
-        return False
-
-    n_susp = 0
-    for aw in [n for n in ast.walk(hconn) if isinstance(n, ast.Await)]:
-        v = aw.value
-        callee = call_name(v) if isinstance(v, ast.Call) else norm(v)
-        if callee.startswith("self.") and callee.count(".") == 1 and m.has(F, "ConnectionHandler." + callee[5:]):
-            ext = external_awaits(m.func(F, "ConnectionHandler." + callee[5:]), {callee[5:]})
-            if not ext:
-                continue  # suspends at most on an (uncontended) lock: the stated cancellation model of C09
-            why = f"{callee} awaits {norm(ext[0].value)[:60]}"
-        else:
-            why = "external awaitable"
-        n_susp += 1
-        ctx.check(guarded(aw), "R09.4", (F, "ConnectionHandler.handle_connection", aw), f"await {callee}(...) inside a CancelledError handler",
-                  f"`{norm(aw)[:80]}` can be cancelled while suspended ({why}) but is not inside a handler for asyncio.CancelledError: the exception leaves handle_connection "
+    for node, callee, guarded in sorted(waits.values(), key=lambda w: (w[0].lineno, w[0].col_offset)):
+        ctx.check(guarded, "R09.4", (F, qual_of(node), node), f"await {callee}(...) inside a CancelledError handler",
+                  f"`{norm(node)[:80]}` can be cancelled while suspended but is not inside a handler for asyncio.CancelledError: the exception leaves handle_connection "
                   "before the writer is closed and self.transports.pop(connection) runs - the connection's resources remain after it ended",
                   desc=f"suspending await {callee} is cancellation-guarded")
-    ctx.require(n_susp >= 3, f"handle_connection: expected at least 3 suspending awaits (read, drain, wait), found {n_susp}")
+    ctx.require(len(waits) >= 3, f"handle_connection: expected at least 3 suspending awaits (read, drain, wait), found {len(waits)}")
     ctx.assume("`await self.server_event(...)` only waits for an asyncio.Lock that is never held across a suspension (its body has no await): cancellation is not modelled there")
     ctx.expect_instances("R09.4", 2 + 3)
 
@@ -489,6 +601,8 @@ MUTANTS = [
            "        self.client.timestamp_end = time.time()\n        if not self.client.error:\n            await self.handle_hook(server_hooks.ClientDisconnectedHook(self.client))\n", "R09.2"),
     Mutant("client-handler-not-awaited", F, "            await asyncio.wait([handler])\n            if not handler.cancelled() and (e := handler.exception()):",
            "            await asyncio.sleep(0)\n            if handler.done() and not handler.cancelled() and (e := handler.exception()):", "R09.2"),
+    Mutant("killed-client-branches-swapped", F, "        if self.client.error:\n            self.log(\"client kill connection\")", "        if not self.client.error:\n            self.log(\"client kill connection\")", "R09.2"),
+    Mutant("remaining-transports-awaited-not-cancelled", F, "            for io in self.transports.values():\n                if io.handler:\n                    io.handler.cancel(\"client disconnected\")\n", "", "R09.2"),
     Mutant("remaining-transports-not-cancelled", F, "                if io.handler:\n                    io.handler.cancel(\"client disconnected\")\n", "                if io.handler:\n                    pass\n", "R09.2"),
     Mutant("semaphore-released-before-serving", F,
            "                await self.server_event(events.OpenConnectionCompleted(command, None))\n\n                try:\n                    await self.handle_connection(command.connection)\n",
